@@ -2,41 +2,46 @@
 
    Model: Model/History.v (caller-owned dicts edited in place + per-object lazy caches;
    operations = build an object on a dict, read a property; the in-place edit is the explicit
-   step [do_shim]), Model/Shim.v (what the edit does).
+   step [do_shim]; CubeSet inflation of responses; augment_response), Model/Shim.v (what the
+   edit of a transforms dict does).
    Only statements here; each closed by [exact <lemma>] + Print Assumptions.
 
-   The history theorem [C18_reads_pure] is proved by induction over the operation list
-   (fold_left step).  The induction FORCES three hypotheses; the real code violates each of them
-   on some history, recorded as open findings with the *_refuted witnesses below (replayed on
-   the implementation by harness/props/c18.py):
+   The history theorems are proved by induction over ARBITRARY operation lists (fold_left step).
+   The inductions force hypotheses on the HISTORY; the real code violates each of them on some
+   history, recorded as open findings with the *_refuted witnesses below (replayed on the
+   implementation by harness/props/c18.py):
 
-     H1  the shim does not raise on the pristine transforms and leaves no None in a list slot
-         (order.element_ids, order.fixed.top/bottom) - i.e. no stale id in those lists.
-         Otherwise the stale id is rewritten to None in the caller's dict and the NEXT object
-         built on that dict (2nd partition of a 3-D cube, 2nd cube) raises TypeError.
      H2  a transforms dict is only ever used with one array dimension.  Otherwise the second
-         cube's references are resolved against the FIRST cube's aliases.
-     H3  no numeric-measure CubeSet (>= 2 responses, first one 0-D) shares a response with
-         another cube: Cube.inflate inserts a rows dimension into the caller's response.
+         cube's references are resolved against the FIRST cube's aliases
+         (known_findings.d/C18-transforms-dict-shared-across-dimensions.json).
+     H3  the responses of a numeric-measure CubeSet (>= 2 responses, first one 0-D) are used by
+         that CubeSet only: Cube.inflate inserts a rows dimension into the caller's response
+         (known_findings.d/C18-inflate-mutates-response.json).
+     H4  the response of a single-filter-column cube that augment_response had to pad is used by
+         that CubeSet only (known_findings.d/C18-augment-mutates-response.json).
+   (H1 of the plan - re-translation of None is total - was a genuine defect, REPAIRED in /repo:
+   it is now the theorems C18_shim_total / C18_shim_fixed and no hypothesis.)
 
-   PARTIAL (stated, not proved here): CubeSet histories beyond inflation (augment_response of
-   single-filter-column cubes, numeric-array measures), and the composition of the transforms
-   history with the numeric measures (the theorem speaks about everything a partition reads from
-   the shimmed transforms - per-element payloads and the items each id list mentions - which is
-   all that flows from the edited dict into the measures). *)
+   PARTIAL (stated, not proved here): the composition of the transforms history with the numeric
+   measures (the theorem speaks about everything a partition reads from the shimmed transforms -
+   per-element payloads and the items each id list mentions - which is all that flows from the
+   edited dict into the measures); datetime dimensions (their idempotence is C19_datetime_idem);
+   numeric-array measures in CubeSets (inflate leaves the caller's response alone there; tied by
+   the relational oracle only). *)
 From Coq Require Import ZArith List Bool Lia Arith String.
 From CC Require Import Base.Ident Model.Shim Model.History Proofs.ShimSpec Proofs.ShimSlots
-  Proofs.HistoryProofs Proofs.HistoryArray.
+  Proofs.HistoryProofs Proofs.HistoryArray Proofs.HistorySets.
 Import ListNotations.
 Local Open Scope nat_scope.
 Local Open Scope string_scope.
 
 (* ---- the edits are idempotent -------------------------------------------------------------- *)
-(* shim (shim t) = shim t, provided the first shim did not raise and left no None in a list *)
+(* shim (shim t) = shim t for EVERY transforms dict t (stale ids, nulls and malformed ids
+   included), on every dimension whose element / sub-variable ids are not null and that has no
+   item aliased "key" *)
 Theorem C18_shim_xf_idem d t t' :
-  ~ In key_str (aliases d) -> shim_xf d t = (t', None) -> no_none_lists t' ->
-  shim_xf d t' = (t', None).
-Proof. exact (shim_xf_idem d t t'). Qed.
+  ~ In key_str (aliases d) -> ids_not_none d -> shim_xf d t = (t', None) -> shim_xf d t' = (t', None).
+Proof. exact (shim_xf_idem_full d t t'). Qed.
 Print Assumptions C18_shim_xf_idem.
 
 (* the element-transforms slot is ALWAYS a fixed point (stale keys are dropped, not kept as None) *)
@@ -45,12 +50,17 @@ Theorem C18_elements_idem d e e' :
 Proof. exact (replaced_elements_idem d e e'). Qed.
 Print Assumptions C18_elements_idem.
 
-(* every consumer reads the same from the dict and from its re-shimmed version *)
-Theorem C18_resolve_shim_invariant d t t' :
-  ~ In key_str (aliases d) -> shim_xf d t = (t', None) -> no_none_lists t' ->
-  consume d (fst (shim_xf d t')) = consume d t'.
-Proof. exact (consume_shim_invariant d t t'). Qed.
+(* every consumer reads the same from the rewritten dict and from its re-shimmed version *)
+Theorem C18_resolve_shim_invariant d t :
+  ~ In key_str (aliases d) -> ids_not_none d ->
+  consume d (fst (shim_xf d (fst (shim_xf d t)))) = consume d (fst (shim_xf d t)).
+Proof. exact (consume_shim_invariant_full d t). Qed.
 Print Assumptions C18_resolve_shim_invariant.
+
+(* Crunch-shaped dimensions (C19's wf) satisfy the condition on ids *)
+Theorem C18_wf_ids_not_none d : wf d -> ids_not_none d.
+Proof. exact (Proofs.ShimTranslate.wf_ids_not_none d). Qed.
+Print Assumptions C18_wf_ids_not_none.
 
 (* the response's dimension dict: "subvar_alias" fields *)
 Theorem C18_shim_dict_idem els : shim_dim_dict (shim_dim_dict els) = shim_dim_dict els.
@@ -78,17 +88,30 @@ Proof. exact (reads_pure D X P V shim cons P_eqb cacheable P_eqb_sound ts used d
 Print Assumptions C18_reads_pure_generic.
 
 (* for array dimensions: every read of every history over shared transforms dicts equals the
-   read on pristine copies, under H1 and H2 *)
+   read on pristine copies.  The former hypothesis H1 (re-translation is total) is no longer
+   needed: since the repair of translate_element_id(None) it is a theorem (C18_shim_total,
+   C18_shim_fixed) for every transforms dict whatsoever - stale ids, nulls, malformed ids
+   included.  What remains are conditions on the DIMENSIONS (no item is aliased "key"; element ids
+   and sub-variable ids are not null) and H2. *)
+Theorem C18_shim_total d t : ~ In INone (raw_ids d) -> snd (shim_xf d t) = None.
+Proof. exact (shim_xf_total d t). Qed.
+Print Assumptions C18_shim_total.
+
+Theorem C18_shim_fixed d t :
+  ~ In key_str (aliases d) -> ids_not_none d ->
+  shim_xf d (fst (shim_xf d t)) = (fst (shim_xf d t), None).
+Proof. exact (shim_xf_fixed d t). Qed.
+Print Assumptions C18_shim_fixed.
+
 Theorem C18_reads_pure (ts : nat -> xf) (used : nat -> Prop) (dimof : nat -> adim) ops :
   (forall i, used i -> ~ In key_str (aliases (dimof i))) ->
-  (forall i, used i -> snd (shim_xf (dimof i) (ts i)) = None) ->            (* H1 *)
-  (forall i, used i -> no_none_lists (fst (shim_xf (dimof i) (ts i)))) ->   (* H1 *)
+  (forall i, used i -> ids_not_none (dimof i)) ->
   Forall (aop_ok used dimof) ops ->                                          (* H2 *)
   arun ts ops = arun_pristine ts ops.
 Proof. exact (array_reads_pure ts used dimof ops). Qed.
 Print Assumptions C18_reads_pure.
 
-(* ---- the hypotheses are necessary: witnesses (open findings) -------------------------------- *)
+(* ---- the remaining hypotheses are necessary: witnesses (open findings) ---------------------- *)
 Definition dA : adim :=
   mk_adim [ mk_item (IInt 1) (Some (IStr "0001")) (Some (IStr "a1")) false false;
             mk_item (IInt 2) (Some (IStr "0002")) (Some (IStr "a2")) false false ] false.
@@ -96,63 +119,112 @@ Definition dB : adim :=
   mk_adim [ mk_item (IInt 1) (Some (IStr "0001")) (Some (IStr "b1")) false false;
             mk_item (IInt 2) (Some (IStr "0002")) (Some (IStr "b2")) false false ] false.
 
-(* H1 violated: explicit order [2, 999] - two partitions (objects) on the same dict; the read of
-   the second one raises TypeError, on pristine copies it returns item 1 *)
-Theorem C18_reads_pure_H1_refuted :
-  exists (t0 : xf) (ops : list (op adim aprop)),
-    Forall (aop_ok (fun i => i = 0) (fun _ => dA)) ops /\
-    snd (shim_xf dA t0) = None /\
-    arun (fun _ => t0) ops <> arun_pristine (fun _ => t0) ops /\
-    arun (fun _ => t0) ops = [Ok (VItems [1]); Raise TypeErr] /\
-    arun_pristine (fun _ => t0) ops = [Ok (VItems [1]); Ok (VItems [1])].
-Proof.
-  exists (mk_xf None (Some [IInt 2; IInt 999]) None None).
-  exists [New dA 0; New dA 0; Read 0 POrder; Read 1 POrder].
-  split; [repeat constructor|]. vm_compute. repeat split; try reflexivity. discriminate.
-Qed.
-Print Assumptions C18_reads_pure_H1_refuted.
+(* the history that refuted H1 before the repair (explicit order [2, 999], two partitions on the
+   same dict) is now pure *)
+Example C18_former_H1_witness_pure :
+  let t0 := mk_xf None (Some [IInt 2; IInt 999]) None None in
+  let ops := [New dA 0; New dA 0; Read 0 POrder; Read 1 POrder] in
+  arun (fun _ => t0) ops = [Ok (VItems [1]); Ok (VItems [1])] /\
+  arun_pristine (fun _ => t0) ops = [Ok (VItems [1]); Ok (VItems [1])] /\
+  arun_dict (fun _ => t0) ops 0 = mk_xf None (Some [IStr "a2"; INone]) None None.
+Proof. vm_compute. repeat split; reflexivity. Qed.
 
 (* H2 violated: one dict, two cubes with different array dimensions: {"1": hide} hides item 0 of
    each cube on pristine copies; after the first cube rewrote the key to ITS alias the second cube
    finds nothing *)
 Theorem C18_reads_pure_H2_refuted :
   exists (t0 : xf) (ops : list (op adim aprop)),
-    snd (shim_xf dA t0) = None /\ no_none_lists (fst (shim_xf dA t0)) /\
-    snd (shim_xf dB t0) = None /\ no_none_lists (fst (shim_xf dB t0)) /\
+    ~ In key_str (aliases dA) /\ ids_not_none dA /\ ~ In key_str (aliases dB) /\ ids_not_none dB /\
     arun (fun _ => t0) ops = [Ok (VElems [Some (Payload 0); None]); Ok (VElems [None; None])] /\
     arun_pristine (fun _ => t0) ops =
       [Ok (VElems [Some (Payload 0); None]); Ok (VElems [Some (Payload 0); None])].
 Proof.
   exists (mk_xf (Some [(IStr "1", Payload 0)]) None None None).
   exists [New dA 0; New dB 0; Read 0 PElems; Read 1 PElems].
-  vm_compute. repeat split; try reflexivity; intros H; exact H.
+  unfold ids_not_none. vm_compute. repeat split; try reflexivity; intros H; intuition discriminate.
 Qed.
 Print Assumptions C18_reads_pure_H2_refuted.
 
-(* ---- responses -------------------------------------------------------------------------------- *)
+(* ---- responses: CubeSet inflation ---------------------------------------------------------------- *)
 (* re-using the responses of a CubeSet for the same CubeSet is safe (second inflation is skipped) *)
 Theorem C18_inflate_stable r0 l :
   rrun r0 [MkSet l; MkSet l] = rrun_pristine r0 [MkSet l; MkSet l].
 Proof. exact (inflate_stable r0 l). Qed.
 Print Assumptions C18_inflate_stable.
 
+(* THE CubeSet history theorem, by induction over arbitrary op lists (numeric-measure sets
+   included, any number of times, interleaved with anything that shares no response with them) *)
 Theorem C18_response_reads_pure r0 ops :
-  Forall (rop_ok r0) ops ->                                                   (* H3 *)
+  groups_ok r0 ops ->                                                          (* H3 *)
   rrun r0 ops = rrun_pristine r0 ops.
-Proof. exact (response_reads_pure r0 ops). Qed.
+Proof. exact (response_reads_pure_groups r0 ops). Qed.
 Print Assumptions C18_response_reads_pure.
 
+(* histories without any numeric-measure set satisfy H3 *)
+Theorem C18_no_numeric_set_ok r0 ops : Forall (rop_ok r0) ops -> groups_ok r0 ops.
+Proof. exact (rop_ok_groups r0 ops). Qed.
+Print Assumptions C18_no_numeric_set_ok.
+
 (* H3 violated: CubeSet over a 0-D and a 1-D response, then a Cube on the first response alone:
-   a strand where pristine copies give a nub *)
+   a strand where pristine copies give a nub; and a second CubeSet sharing the 0-D response with
+   another 1-D response: a strand where pristine copies give a 1 x N slice *)
 Theorem C18_inflate_H3_refuted :
   exists (r0 : nat -> nat) (ops : list rop),
-    rrun r0 ops = [[Strand; Slice]; [Strand]] /\
-    rrun_pristine r0 ops = [[Strand; Slice]; [Nub]].
+    rrun r0 ops = [[Strand; Slice]; [Strand]; [Strand; Strand]] /\
+    rrun_pristine r0 ops = [[Strand; Slice]; [Nub]; [Strand; Slice]].
 Proof.
-  exists (fun i => if Nat.eqb i 0 then 0 else 1). exists [MkSet [0; 1]; MkCube 0].
+  exists (fun i => if Nat.eqb i 0 then 0 else 1). exists [MkSet [0; 1]; MkCube 0; MkSet [0; 2]].
   vm_compute. split; reflexivity.
 Qed.
 Print Assumptions C18_inflate_H3_refuted.
+
+(* ---- responses: augment_response ---------------------------------------------------------------- *)
+Theorem C18_augment_idem f s f' : augment f s = Some f' -> augment f' s = Some f'.
+Proof. exact (augment_idem f s f'). Qed.
+Print Assumptions C18_augment_idem.
+
+Theorem C18_augment_length f s f' :
+  augment f s = Some f' -> List.length (a_counts f') = List.length (a_counts s).
+Proof. exact (augment_length f s f'). Qed.
+Print Assumptions C18_augment_length.
+
+(* the same CubeSet any number of times over the same (summary, filter) responses *)
+Theorem C18_augment_stable s f0 n :
+  augment f0 s <> None ->                      (* data[pos] = value does not raise *)
+  a_run s f0 (repeat ASet n) = a_run_pristine s f0 (repeat ASet n).
+Proof. exact (aset_reads_pure s f0 n). Qed.
+Print Assumptions C18_augment_stable.
+
+(* no padding needed (as many counts as the summary cube): every history is pure *)
+Theorem C18_augment_not_needed_pure s f0 ops :
+  List.length (a_counts f0) = List.length (a_counts s) -> a_run s f0 ops = a_run_pristine s f0 ops.
+Proof. exact (a_noaug_reads_pure s f0 ops). Qed.
+Print Assumptions C18_augment_not_needed_pure.
+
+(* the hypothesis is needed: summary ids that are not positions (malformed: zz9 numbers text
+   elements 0..n-1) make the first CubeSet raise IndexError AFTER the filter response's elements
+   were replaced; the second attempt then "succeeds" on the half-edited response *)
+Example C18_augment_raise_half_edit :
+  let s := mk_aresp [6; 7; 0]%Z [(IInt 0, Some (IStr "A")); (IInt 5, Some (IStr "B")); (IInt (-1), None)] in
+  let f0 := mk_aresp [4]%Z [(IInt 0, Some (IStr "B"))] in
+  augment f0 s = None /\
+  a_run s f0 [ASet; ASet] = [None; Some [4; 0; 0]%Z] /\ a_run_pristine s f0 [ASet; ASet] = [None; None].
+Proof. vm_compute. repeat split; reflexivity. Qed.
+
+(* H4 violated: summary A,B,C,D (+ missing), filter cube B,D (+ missing): after the CubeSet a Cube
+   on the filter response alone reports the padded counts *)
+Theorem C18_augment_H4_refuted :
+  exists (s f0 : aresp) (ops : list aop),
+    a_run s f0 ops = [Some [0; 2; 0; 1; 0]; Some [0; 2; 0; 1; 0]]%Z /\
+    a_run_pristine s f0 ops = [Some [0; 2; 0; 1; 0]; Some [2; 1; 0]]%Z.
+Proof.
+  exists (mk_aresp [1; 2; 3; 4; 0]%Z
+            [(IInt 0, Some (IStr "A")); (IInt 1, Some (IStr "B")); (IInt 2, Some (IStr "C"));
+             (IInt 3, Some (IStr "D")); (IInt (-1), None)]).
+  exists (mk_aresp [2; 1; 0]%Z [(IInt 0, Some (IStr "B")); (IInt 1, Some (IStr "D")); (IInt (-1), None)]).
+  exists [ASet; ACube]. vm_compute. split; reflexivity.
+Qed.
+Print Assumptions C18_augment_H4_refuted.
 
 (* JSON text, dict, and the {"value": ...} envelope give the same response *)
 Theorem C18_envelope_agree (R : Type) (r : R) :
@@ -167,18 +239,42 @@ Print Assumptions C18_envelope_agree.
 (* a history satisfying H1 and H2: three objects on two dicts, interleaved and repeated reads *)
 Example C18_example :
   let t0 := mk_xf (Some [(IStr "0002", Payload 3); (IStr "zz", Payload 4)])
-                  (Some [IInt 2; IStr "a1"]) (Some [IStr "1"]) None in
+                  (Some [IInt 2; IStr "stale"; IStr "a1"; INone]) (Some [IStr "1"; IInt 77]) None in
   let t1 := mk_xf None (Some [IStr "0001"]) None None in
   let ts := fun i => if Nat.eqb i 0 then t0 else t1 in
   let ops := [New dA 0; New dA 1; New dA 0; Read 2 POrder; Read 0 PElems; Read 1 POrder;
               Read 0 POrder; Read 2 PElems; Read 0 POrder; Read 2 PTop] in
-  snd (shim_xf dA t0) = None /\ no_none_lists (fst (shim_xf dA t0)) /\
-  snd (shim_xf dA t1) = None /\ no_none_lists (fst (shim_xf dA t1)) /\
+  ~ In key_str (aliases dA) /\ ids_not_none dA /\
   arun ts ops = arun_pristine ts ops /\
   arun ts ops = [Ok (VItems [1; 0]); Ok (VElems [None; Some (Payload 3)]); Ok (VItems [0]);
                  Ok (VItems [1; 0]); Ok (VElems [None; Some (Payload 3)]); Ok (VItems [1; 0]);
-                 Ok (VItems [0])].
+                 Ok (VItems [0])] /\
+  (* the caller's dict 0 afterwards: stale ids and the null are None, the stale key is gone *)
+  arun_dict ts ops 0 = mk_xf (Some [(IStr "a2", Payload 3)])
+                             (Some [IStr "a2"; INone; IStr "a1"; INone]) (Some [IStr "a1"; INone]) None.
 Proof.
-  vm_compute. repeat split; try reflexivity; intros H; try exact H;
-    repeat (destruct H as [H|H]; try discriminate); try contradiction.
+  unfold ids_not_none. vm_compute. repeat split; try reflexivity; intros H; intuition discriminate.
+Qed.
+
+(* a CubeSet history satisfying H3: a numeric-measure set run three times, interleaved with cubes
+   and sets over OTHER responses (one of them 0-D as well) *)
+Example C18_example_sets :
+  let r0 := ndims_of [0; 1; 1; 2; 0; 1] in
+  let ops := [MkCube 3; MkSet [0; 1; 2]; MkCube 4; MkSet [3; 5]; MkSet [0; 1; 2]; MkSet [4];
+              MkSet [0; 1; 2]; MkCube 5] in
+  groups_ok r0 ops /\ numeric0 r0 (MkSet [0; 1; 2]) = true /\
+  rrun r0 ops = rrun_pristine r0 ops /\
+  rrun r0 ops = [[Slice]; [Strand; Slice; Slice]; [Nub]; [Slice; Strand]; [Strand; Slice; Slice];
+                 [Nub]; [Strand; Slice; Slice]; [Strand]] /\
+  rrun_state r0 ops 0 = 1 /\ rrun_state r0 ops 4 = 0.
+Proof.
+  cbv zeta. split; [|vm_compute; repeat split; reflexivity].
+  split.
+  - intros x Hx N. simpl in Hx.
+    repeat (destruct Hx as [<-|Hx]; [try discriminate N; simpl; repeat constructor; simpl; intuition lia|]).
+    contradiction.
+  - intros x y Hx Hy N. simpl in Hx.
+    repeat (destruct Hx as [<-|Hx]; [try discriminate N|]); try contradiction;
+      simpl in Hy; repeat (destruct Hy as [<-|Hy]; [try (left; reflexivity); right; simpl; intuition lia|]);
+      contradiction.
 Qed.
